@@ -43,7 +43,14 @@ FILTERS = [
     {"kinds": [1], "limit": 0}, {"kinds": [1, 2], "#t": ["a"], "limit": 0},
 ]
 SUBS = ["s1", "s2", "s3", 'q"uote', "a\\u0041", "aA"]   # ids needing JSON escaping; one that un-escapes to another one
-TAGSETS = [[], [["t", "a"]], [["t", ""]], [["t", "b"]], [["t", "a"], ["t", ""]]]
+TAGSETS = [[], [["t", "a"]], [["t", ""]], [["t", "b"]], [["t", "a"], ["t", ""]],
+           # NIP-26: a genuine delegation by key 0 (named in authors filters) / by key 2 (named in none), resolved at run time
+           [["delegation", "@0"]], [["delegation", "@2"]], [["t", "a"], ["delegation", "@2"]]]
+
+
+def resolve_tags(tags, author_k, kind):
+    return [E.delegation_tag(int(t[1][1:]), E.PKS[author_k], "kind=%d" % kind)
+            if t[0] == "delegation" and isinstance(t[1], str) and t[1].startswith("@") else t for t in tags]
 
 
 @st.composite
@@ -226,7 +233,9 @@ class Fanout(Sub):
                         c.feed(["EVENT", src["ev"]], op[6])
                         src["dups"] += 1
                     else:
-                        ev = E.make(op[3], op[2], E.T0 + counter, TAGSETS[op[4]], "e%d" % counter)
+                        ev = E.make(op[3], op[2], E.T0 + counter, resolve_tags(TAGSETS[op[4]], op[3], op[2]), "e%d" % counter)
+                        if any(t[0] == "delegation" for t in ev["tags"]):
+                            labels.append("delegated-event")
                         valid = mode != "badsig"
                         if not valid:
                             ev["sig"] = "00" * 64
@@ -376,7 +385,9 @@ class Fanout(Sub):
                             continue  # on a since/until bound
                         live = any(f[0] == "EVENT" and f[1] == I["sub"] and f[2]["id"] == e["id"] for (_, f) in frames[I["conn"]])
                         if live != (e["id"] in now):
-                            viol.append(V("%s-live-differs-from-stored:%s" % (backend, "live-only" if live else "stored-only"),
+                            bare = dict(e, tags=[t for t in e["tags"] if not (t and t[0] == "delegation")])
+                            via = "" if any(R.must_match(bare, f) for f in I["filters"]) else ":delegator"  # matches only through NIP-26
+                            viol.append(V("%s-live-differs-from-stored:%s%s" % (backend, "live-only" if live else "stored-only", via),
                                           "live matching agrees with stored matching",
                                           filters=I["filters"], event=_brief(e), live=live, stored=e["id"] in now))
                             break
